@@ -220,6 +220,10 @@ func (op R2owa) Simulate(vm *VM, instr string) error {
 	regBits := vm.Mach.R
 	reg := get_id(instr[:regBits])
 	outp := get_id(instr[regBits : int(regBits)+outBits])
+	if !vm.OutputsValid[outp] && vm.OutputsRecv[outp] {
+		// recv is still high from the previous transfer on this output: wait for it to drop
+		return nil
+	}
 	vm.Outputs[outp] = vm.Registers[reg]
 	vm.OutputsValid[outp] = true
 	if vm.OutputsRecv[outp] {
@@ -313,6 +317,8 @@ func (Op R2owa) Op_instruction_verilog_extra_block(arch *Arch, flavor string, le
 
 		result += pref + "\t" + strings.ToUpper(objects[0]) + " : begin\n"
 		result += pref + "\t\tif (waitsm == 1'b1) " + strings.ToLower(objects[0]) + "_val <= 1'b1;\n"
+		// between two writes to the same output valid has to drop once the value was received
+		result += pref + "\t\telse if (" + strings.ToLower(objects[0]) + "_received) " + strings.ToLower(objects[0]) + "_val <= #1 1'b0;\n"
 		result += pref + "\tend\n"
 
 		result += pref + "\tdefault: begin\n"
